@@ -641,7 +641,8 @@ func (i *Iter) Int() (int64, error) {
 			return 0, errors.New("corrupt input: expected float, but no more values on tape")
 		}
 		v := math.Float64frombits(i.tape.Tape[i.off])
-		if v > math.MaxInt64 {
+		if v >= math.MaxInt64 {
+			// MaxInt64 is not representable as float64 and is rounded up to 2^63.
 			return 0, errors.New("float value overflows int64")
 		}
 		if v < math.MinInt64 {
@@ -691,7 +692,8 @@ func (i *Iter) Uint() (uint64, error) {
 			return 0, errors.New("corrupt input: expected float, but no more values on tape")
 		}
 		v := math.Float64frombits(i.tape.Tape[i.off])
-		if v > math.MaxUint64 {
+		if v >= math.MaxUint64 {
+			// MaxUint64 is not representable as float64 and is rounded up to 2^64.
 			return 0, errors.New("float value overflows uint64")
 		}
 		if v < 0 {
